@@ -213,6 +213,17 @@ func (c10) Run(c *Case, st *Stats) []Violation {
 			switch c.Impl {
 			case "memory":
 				repo = asset.NewInMemoryRepository()
+				if c.Seed%3 == 0 {
+					// through the public factory, with the usual empty configuration: every repository it
+					// builds is a map of its own
+					r, err := asset.NewRepository(asset.InMemoryRepositoryBuilderName, "")
+					if err != nil {
+						add("constructor-error", "-", err.Error())
+						return
+					}
+					repo = r
+					st.Probes["repositories-built-by-the-factory"]++
+				}
 			case "file":
 				dir = runDir()
 				switch c.Mode {
